@@ -15,6 +15,7 @@ import (
 	"verifharness/internal/rep"
 
 	git "github.com/go-git/go-git/v6"
+	"github.com/go-git/go-git/v6/config"
 	"github.com/go-git/go-git/v6/plumbing"
 	"github.com/go-git/go-git/v6/plumbing/filemode"
 	"github.com/go-git/go-git/v6/plumbing/format/index"
@@ -391,6 +392,35 @@ func (rw *repoWorld) run(row *repoRow) error {
 		return w.Checkout(&git.CheckoutOptions{Branch: "refs/heads/twin"})
 	case "checkout-create":
 		return w.Checkout(&git.CheckoutOptions{Branch: "refs/heads/feature", Create: true})
+	case "reset-merge-head":
+		return w.Reset(&git.ResetOptions{Mode: git.MergeReset})
+	case "reset-keep-head":
+		return w.Reset(&git.ResetOptions{Mode: git.KeepReset})
+	case "reset-hard-badsparse", "reset-merge-badsparse", "reset-keep-badsparse", "reset-mixed-badsparse":
+		mode := map[string]git.ResetMode{"reset-hard-badsparse": git.HardReset, "reset-merge-badsparse": git.MergeReset,
+			"reset-keep-badsparse": git.KeepReset, "reset-mixed-badsparse": git.MixedReset}[row.Op]
+		return w.Reset(&git.ResetOptions{Commit: rw.commitT, Mode: mode, SparseDirs: []string{"no-such-dir"}})
+	case "reset-hard-missing":
+		return w.Reset(&git.ResetOptions{Commit: plumbing.NewHash("1234567890123456789012345678901234567890"), Mode: git.HardReset})
+	case "checkout-create-existing":
+		return w.Checkout(&git.CheckoutOptions{Branch: "refs/heads/target", Create: true})
+	case "checkout-missing-branch":
+		return w.Checkout(&git.CheckoutOptions{Branch: "refs/heads/no-such-branch"})
+	case "checkout-branch-and-hash":
+		return w.Checkout(&git.CheckoutOptions{Branch: "refs/heads/target", Hash: rw.commitT})
+	case "checkout-force-missing-hash":
+		return w.Checkout(&git.CheckoutOptions{Hash: plumbing.NewHash("1234567890123456789012345678901234567890"), Force: true})
+	case "pull":
+		// the repository is its own remote: "origin" points at its directory, the upstream branch is target
+		// (a child commit of HEAD), so the pull is a fast-forward of master to T
+		if _, err := rw.r.CreateRemote(&config.RemoteConfig{Name: "origin", URLs: []string{rw.dir}}); err != nil {
+			return fmt.Errorf("harness: create remote: %v", err)
+		}
+		err := w.Pull(&git.PullOptions{RemoteName: "origin", ReferenceName: "refs/heads/target", SingleBranch: true})
+		if errors.Is(err, git.NoErrAlreadyUpToDate) {
+			return nil
+		}
+		return err
 	case "sparse":
 		var dirs []string
 		for _, d := range strings.Split(row.Arg[0], "+") {
@@ -493,11 +523,13 @@ func multi(row *repoRow) string { return "" }
 
 var repoOpsOf = map[string][]string{
 	"C25": {"reset-hard", "checkout-force", "checkout-force-create"},
-	"C30": {"checkout", "checkout-twin", "checkout-create", "reset-merge", "reset-keep"},
+	"C30": {"checkout", "checkout-twin", "checkout-create", "reset-merge", "reset-keep", "reset-merge-head", "reset-keep-head"},
 	"C28": {"add", "add-all", "remove", "move", "clean", "commit"},
 	"C27": {"status"},
 	"C32": {"sparse"},
-	"C29": {"reset-hard", "checkout-force", "checkout-force-create", "checkout", "checkout-twin", "checkout-create", "reset-merge", "reset-keep", "add", "add-all", "remove", "move", "clean", "commit", "sparse"},
+	"C29": {"reset-hard", "checkout-force", "checkout-force-create", "checkout", "checkout-twin", "checkout-create", "reset-merge", "reset-keep", "add", "add-all", "remove", "move", "clean", "commit", "sparse",
+		"pull", "reset-merge-head", "reset-keep-head", "reset-hard-badsparse", "reset-merge-badsparse", "reset-keep-badsparse", "reset-mixed-badsparse",
+		"reset-hard-missing", "checkout-create-existing", "checkout-missing-branch", "checkout-branch-and-hash", "checkout-force-missing-hash"},
 }
 
 func init() { register("repo", repoCmd) }
@@ -548,135 +580,154 @@ func repoCmd(args []string) error {
 	}
 	gitEvery := len(rows)/gitBudget + 1
 	okCount, refusedCount := 0, 0
+	twinInC29 := map[string]bool{"pull": true, "reset-merge-head": true, "reset-keep-head": true, "reset-hard-missing": true,
+		"checkout-create-existing": true, "checkout-missing-branch": true, "checkout-force-missing-hash": true}
 	for ri, row := range rows {
-		r.Eval(1)
-		rw, err := newRepoWorld(row)
-		if err != nil {
-			return fmt.Errorf("pre-state: %v (row %+v)", err, row)
+		// C25 runs every row twice: plainly, and with cached stat data in the index while the files that differ
+		// from it were rewritten with the same size inside the same second (a metadata shortcut must not make a
+		// forced checkout / hard reset skip them)
+		variants := []string{""}
+		if prop == "C25" {
+			variants = []string{"", "cached-stat"}
 		}
-		cs := map[string]any{"H": row.H, "I": row.I, "W": row.W, "T": row.T, "op": row.Op, "arg": row.Arg, "expect": row.Exp}
-		if prop != "C27" && prop != "C29" && prop != "C32" && ri%gitEvery == 0 && gitcli.Available() {
-			gitTwin(r, row)
-		}
-		pre := rw.observe()
-		if prop == "C27" {
-			repoStatus(r, rw, row, cs, ri%gitEvery == 0, "status")
-			rw.close()
-			// second pass: index entries carry cached stat data (size, mtime) and files that differ from
-			// the index were rewritten within the SAME second with the same size (racy situation); the
-			// expected status is the same - a metadata shortcut must not hide the modification
-			rw2, err := newRepoWorld(row)
-			if err == nil {
-				if err := rw2.statCache(row); err == nil {
-					r.Eval(1)
-					repoStatus(r, rw2, row, cs, false, "status-with-cached-stat")
-				}
-				rw2.close()
+		for _, variant := range variants {
+			r.Eval(1)
+			rw, err := newRepoWorld(row)
+			if err != nil {
+				return fmt.Errorf("pre-state: %v (row %+v)", err, row)
 			}
-			continue
-		}
-		opErr := rw.run(row)
-		post := rw.observe()
-		cs["error"] = fmt.Sprint(opErr)
-		cs["post_index"] = post.Idx
-		cs["post_worktree"] = post.Wt
-		cs["post_head"] = post.HeadRef + ":" + post.HeadTree
-		if post.Err != "" {
-			r.Diverge(row.Op+"|repository-unreadable-after|"+normErr(errors.New(post.Err)), "repository cannot be read after the operation: "+post.Err, cs)
-			rw.close()
-			continue
-		}
-		if opErr != nil {
-			refusedCount++
-			// C29: a refused operation changes nothing (HEAD, branches, index, tracked worktree files)
-			if prop == "C29" {
+			opName := row.Op
+			if variant != "" {
+				opName += "+" + variant
+				if err := rw.statCache(row); err != nil {
+					rw.close()
+					continue
+				}
+			}
+			cs := map[string]any{"H": row.H, "I": row.I, "W": row.W, "T": row.T, "op": opName, "arg": row.Arg, "expect": row.Exp}
+			if variant == "" && ri%gitEvery == 0 && gitcli.Available() && ((prop != "C27" && prop != "C29" && prop != "C32") || (prop == "C29" && twinInC29[row.Op])) {
+				gitTwin(r, row)
+			}
+			pre := rw.observe()
+			if prop == "C27" {
+				repoStatus(r, rw, row, cs, ri%gitEvery == 0, "status")
+				rw.close()
+				// second pass: index entries carry cached stat data (size, mtime) and files that differ from
+				// the index were rewritten within the SAME second with the same size (racy situation); the
+				// expected status is the same - a metadata shortcut must not hide the modification
+				rw2, err := newRepoWorld(row)
+				if err == nil {
+					if err := rw2.statCache(row); err == nil {
+						r.Eval(1)
+						repoStatus(r, rw2, row, cs, false, "status-with-cached-stat")
+					}
+					rw2.close()
+				}
+				continue
+			}
+			opErr := rw.run(row)
+			post := rw.observe()
+			cs["error"] = fmt.Sprint(opErr)
+			cs["post_index"] = post.Idx
+			cs["post_worktree"] = post.Wt
+			cs["post_head"] = post.HeadRef + ":" + post.HeadTree
+			if post.Err != "" {
+				r.Diverge(row.Op+"|repository-unreadable-after|"+normErr(errors.New(post.Err)), "repository cannot be read after the operation: "+post.Err, cs)
+				rw.close()
+				continue
+			}
+			if opErr != nil {
+				refusedCount++
+				// C29: a refused operation changes nothing (HEAD, branches, index, tracked worktree files)
+				if prop == "C29" {
+					if d := repoDiff(pre, post, row); d != "" {
+						r.Diverge(row.Op+"|refused-but-changed|"+d+"|error="+errClass(opErr), fmt.Sprintf("%s returned %q but changed %s", row.Op, normErr(opErr), d), cs)
+					}
+				}
+				if prop == "C28" && row.Exp.Verdict == "ok" {
+					r.Diverge(row.Op+"|unexpected-error|"+errClass(opErr), fmt.Sprintf("%s failed (%v) where git succeeds", row.Op, normErr(opErr)), cs)
+				}
+				rw.close()
+				continue
+			}
+			okCount++
+			if prop == "C29" || row.Exp.Verdict == "unspecified" {
+				rw.close()
+				continue
+			}
+			// success: the post-state must be inside the allowed sets
+			if row.Exp.Verdict == "refuse" && prop != "C28" {
+				// C30: what was lost?
+				lost := ""
+				for _, p := range rw.paths {
+					if row.W[p] != row.I[p] && post.Wt[p] != row.W[p] {
+						lost = "worktree-content:" + shape(row, p)
+						break
+					}
+					if row.I[p] != row.H[p] && post.Idx[p] != row.I[p] {
+						lost = "staged-content:" + shape(row, p)
+					}
+				}
+				if lost == "" {
+					lost = "nothing-observed:" + firstShape(row)
+				}
+				r.Diverge(row.Op+"|succeeded-where-it-must-refuse|lost="+lost+multi(row), fmt.Sprintf("%s succeeded although it overwrites local changes (%s)", row.Op, lost), cs)
+				rw.close()
+				continue
+			}
+			if row.Exp.Verdict == "refuse" && prop == "C28" {
 				if d := repoDiff(pre, post, row); d != "" {
-					r.Diverge(row.Op+"|refused-but-changed|"+d+"|error="+errClass(opErr), fmt.Sprintf("%s returned %q but changed %s", row.Op, normErr(opErr), d), cs)
+					r.Diverge(row.Op+"|succeeded-where-git-refuses|"+d, fmt.Sprintf("%s succeeded and changed %s where git refuses", row.Op, d), cs)
 				}
+				rw.close()
+				continue
 			}
-			if prop == "C28" && row.Exp.Verdict == "ok" {
-				r.Diverge(row.Op+"|unexpected-error|"+errClass(opErr), fmt.Sprintf("%s failed (%v) where git succeeds", row.Op, normErr(opErr)), cs)
+			bad := ""
+			wantHead := row.Exp.Head
+			gotHead := post.HeadTree
+			if strings.HasSuffix(gotHead, "*") {
+				gotHead = gotHead[:1]
 			}
-			rw.close()
-			continue
-		}
-		okCount++
-		if prop == "C29" || row.Exp.Verdict == "unspecified" {
-			rw.close()
-			continue
-		}
-		// success: the post-state must be inside the allowed sets
-		if row.Exp.Verdict == "refuse" && prop != "C28" {
-			// C30: what was lost?
-			lost := ""
+			headOK := gotHead == wantHead ||
+				(wantHead == "T" && post.HeadTree == "H" && rw.treeH == rw.treeT) ||
+				(wantHead == "H" && post.HeadTree == "T" && rw.treeH == rw.treeT)
+			if wantHead == "I" {
+				headOK = post.HeadTree == "I" || (rw.treeI == rw.treeH && gotHead == "H") || (rw.treeI == rw.treeT && gotHead == "T")
+			}
+			if !headOK {
+				bad = "head|want=" + wantHead + ",got=" + post.HeadTree
+			}
 			for _, p := range rw.paths {
-				if row.W[p] != row.I[p] && post.Wt[p] != row.W[p] {
-					lost = "worktree-content:" + shape(row, p)
+				if bad != "" {
 					break
 				}
-				if row.I[p] != row.H[p] && post.Idx[p] != row.I[p] {
-					lost = "staged-content:" + shape(row, p)
+				if !in(row.Exp.Idx[p], post.Idx[p]) {
+					bad = "index|" + shape(row, p)
+				} else if !in(row.Exp.Wt[p], post.Wt[p]) {
+					bad = "worktree|" + shape(row, p)
+				} else if row.Exp.Skip != nil && row.Exp.Skip[p] != post.Skip[p] {
+					bad = fmt.Sprintf("skip-worktree|want=%v,got=%v|incone=%v", row.Exp.Skip[p], post.Skip[p], !row.Exp.Skip[p])
 				}
 			}
-			if lost == "" {
-				lost = "nothing-observed:" + firstShape(row)
+			if bad == "" && len(post.Extra) > 0 {
+				bad = "worktree|unexpected-extra-path"
 			}
-			r.Diverge(row.Op+"|succeeded-where-it-must-refuse|lost="+lost+multi(row), fmt.Sprintf("%s succeeded although it overwrites local changes (%s)", row.Op, lost), cs)
-			rw.close()
-			continue
-		}
-		if row.Exp.Verdict == "refuse" && prop == "C28" {
-			if d := repoDiff(pre, post, row); d != "" {
-				r.Diverge(row.Op+"|succeeded-where-git-refuses|"+d, fmt.Sprintf("%s succeeded and changed %s where git refuses", row.Op, d), cs)
+			if bad == "" {
+				for k := range post.Idx {
+					if _, ok := row.I[k]; !ok {
+						bad = "index|unexpected-entry"
+					}
+				}
 			}
-			rw.close()
-			continue
-		}
-		bad := ""
-		wantHead := row.Exp.Head
-		gotHead := post.HeadTree
-		if strings.HasSuffix(gotHead, "*") {
-			gotHead = gotHead[:1]
-		}
-		headOK := gotHead == wantHead ||
-			(wantHead == "T" && post.HeadTree == "H" && rw.treeH == rw.treeT) ||
-			(wantHead == "H" && post.HeadTree == "T" && rw.treeH == rw.treeT)
-		if wantHead == "I" {
-			headOK = post.HeadTree == "I" || (rw.treeI == rw.treeH && gotHead == "H") || (rw.treeI == rw.treeT && gotHead == "T")
-		}
-		if !headOK {
-			bad = "head|want=" + wantHead + ",got=" + post.HeadTree
-		}
-		for _, p := range rw.paths {
 			if bad != "" {
-				break
+				r.Diverge(row.Op+"|post-state|"+bad+multi(row), fmt.Sprintf("after successful %s the %s differs from the specification", row.Op, strings.SplitN(bad, "|", 2)[0]), cs)
+			} else if (prop == "C25" || prop == "C28") && ri%gitEvery == 0 && gitcli.Available() {
+				repoGitAgrees(r, rw, row, post, cs, prop)
 			}
-			if !in(row.Exp.Idx[p], post.Idx[p]) {
-				bad = "index|" + shape(row, p)
-			} else if !in(row.Exp.Wt[p], post.Wt[p]) {
-				bad = "worktree|" + shape(row, p)
-			} else if row.Exp.Skip != nil && row.Exp.Skip[p] != post.Skip[p] {
-				bad = fmt.Sprintf("skip-worktree|want=%v,got=%v|incone=%v", row.Exp.Skip[p], post.Skip[p], !row.Exp.Skip[p])
+			rw.close()
+			if ri%300 == 0 {
+				r.Sample(map[string]any{"H": row.H, "I": row.I, "W": row.W, "T": row.T, "op": row.Op, "arg": row.Arg, "verdict": row.Exp.Verdict, "error": fmt.Sprint(opErr)})
 			}
-		}
-		if bad == "" && len(post.Extra) > 0 {
-			bad = "worktree|unexpected-extra-path"
-		}
-		if bad == "" {
-			for k := range post.Idx {
-				if _, ok := row.I[k]; !ok {
-					bad = "index|unexpected-entry"
-				}
-			}
-		}
-		if bad != "" {
-			r.Diverge(row.Op+"|post-state|"+bad+multi(row), fmt.Sprintf("after successful %s the %s differs from the specification", row.Op, strings.SplitN(bad, "|", 2)[0]), cs)
-		} else if (prop == "C25" || prop == "C28") && ri%gitEvery == 0 && gitcli.Available() {
-			repoGitAgrees(r, rw, row, post, cs, prop)
-		}
-		rw.close()
-		if ri%300 == 0 {
-			r.Sample(map[string]any{"H": row.H, "I": row.I, "W": row.W, "T": row.T, "op": row.Op, "arg": row.Arg, "verdict": row.Exp.Verdict, "error": fmt.Sprint(opErr)})
 		}
 	}
 	r.Distinct = len(rows)
@@ -852,7 +903,6 @@ func repoGitAgrees(r *rep.Report, rw *repoWorld, row *repoRow, post *repoObs, cs
 	r.Traces++
 }
 
-
 // gitTwin runs the equivalent git command on an identical pre-state and checks that git's own
 // outcome is inside what the specification allows.  A disagreement is a SPEC error (the
 // specification is wrong about git), never a go-git violation.
@@ -880,6 +930,20 @@ func gitTwin(r *rep.Report, row *repoRow) {
 		args = []string{"checkout", "-q", "twin"}
 	case "checkout-create":
 		args = []string{"checkout", "-q", "-b", "feature"}
+	case "reset-merge-head":
+		args = []string{"reset", "-q", "--merge", "HEAD"}
+	case "reset-keep-head":
+		args = []string{"reset", "-q", "--keep", "HEAD"}
+	case "pull":
+		args = []string{"merge", "-q", "--ff-only", "target"}
+	case "reset-hard-missing":
+		args = []string{"reset", "-q", "--hard", "1234567890123456789012345678901234567890"}
+	case "checkout-create-existing":
+		args = []string{"checkout", "-q", "-b", "target"}
+	case "checkout-missing-branch":
+		args = []string{"checkout", "-q", "no-such-branch"}
+	case "checkout-force-missing-hash":
+		args = []string{"checkout", "-q", "-f", "1234567890123456789012345678901234567890"}
 	case "add":
 		args = []string{"add", "--", row.Arg[0]}
 	case "add-all":
@@ -928,7 +992,6 @@ func gitTwin(r *rep.Report, row *repoRow) {
 	}
 	r.Traces++
 }
-
 
 // statCache gives every regular index entry cached stat data and places the worktree files in the
 // racy-git situation: same size, modification time inside the same second as the recorded one
